@@ -581,6 +581,21 @@ func (f *Frame) loopExtras(li *loopInfo, st *State) map[string]TV {
 			ex["$i"] = TV{T: f.vals[p].T, Ty: p.Type()}
 		}
 	}
+	// enclosing range loops: $i<ordinal> is the range index of loop <ordinal> of this function
+	for _, o := range f.loops {
+		if o == li || !o.body[li.head] {
+			continue
+		}
+		for _, ins := range o.head.Instrs {
+			p, ok := ins.(*ssa.Phi)
+			if !ok {
+				break
+			}
+			if v, has := f.vals[p]; has && p.Comment == "rangeindex" {
+				ex[fmt.Sprintf("$i%d", o.ord)] = TV{T: v.T, Ty: p.Type()}
+			}
+		}
+	}
 	return ex
 }
 
